@@ -1,4 +1,240 @@
-import OtelVerif.Model.C03
-/-! C03 property theorems (stub) -/
+import OtelVerif.Lemmas.C03
+/-!
+# C03 — graceful exporter shutdown drains accepted data and stops all work
+
+Theorems over EVERY reachable state of the LTS `Model/C03.lean` (every interleaving of any number of producers, `n` consumers,
+the batcher's timer goroutine, any number of flush goroutines limited by any worker pool, the retry loops and the goroutine that
+runs `Shutdown`; every re-partition of the batches; every backend outcome; every configuration `Cfg`).
+`phase = 5` is "Shutdown has returned".  Trace-level monitor (`verdict`, `checkMemory`, `checkPersistent`) is proved sound
+for the trace reading of the same clauses (`C03_check_memory_sound`, `C03_check_persistent_sound`); it is what the driver
+evaluates on the traces recorded from the real exporter.
+-/
 namespace OtelVerif.C03
+
+/-- `fire` is exactly the transition relation `Step` (one constructor per branch of the code) -/
+theorem C03_fire_iff_step (s s' : State) (l : Label) : fire s l = some s' ↔ Step s l s' :=
+  ⟨fire_step, step_fire⟩
+
+/-- the invariant holds in every reachable state -/
+theorem C03_invariant {s : State} (h : Reachable s) : Inv s := inv_reachable h
+
+theorem all_exited_items {cs : List CSt} (h : ∀ c ∈ cs, c = .exited) : consItems cs = [] := by
+  induction cs with
+  | nil => rfl
+  | cons c cs ih =>
+    have hc := h c (List.mem_cons_self)
+    simp only [consItems, List.flatMap_cons] at ih ⊢
+    rw [ih (fun c' hc' => h c' (List.mem_cons_of_mem _ hc')), hc]; rfl
+
+theorem all_late_queueEarly {q : List (Batch × Bool)} (h : ∀ p ∈ q, p.2 = true) : queueEarly q = [] := by
+  induction q with
+  | nil => rfl
+  | cons p q ih =>
+    simp only [queueEarly, List.flatMap_cons] at ih ⊢
+    rw [ih (fun p' hp' => h p' (List.mem_cons_of_mem _ hp')), h p List.mem_cons_self]; rfl
+
+/-- **Quiet.** When `Shutdown` has returned: every consumer goroutine has left its loop, the timer goroutine is gone, no batch is
+held anywhere, every flight (flush goroutine / export chain pass) has ended — hence every export call has returned —, no export
+call can begin, and this remains so whatever happens afterwards (`Reachable` is closed under steps and the phase stays 5). -/
+theorem C03_quiet {s : State} (h : Reachable s) (hp : s.phase = 5) :
+    (∀ c ∈ s.cons, c = .exited) ∧ s.cur = none ∧ s.shutHand = none ∧ s.timer = .dead ∧
+    (∀ fl ∈ s.flights, fl.st = .done) ∧ (∀ f, fire s (.expStart f) = none) := by
+  have w := (inv_reachable h).wf
+  have hall := w.joined (by omega)
+  have hdone : ∀ fl ∈ s.flights, fl.st = .done := by
+    intro fl hfl
+    have howned : fl.owner.isSome = true ∨ fl.st = .done := by
+      cases hb : s.cfg.batching with
+      | true => exact (w.ret hp hb).2.2 fl hfl
+      | false => exact .inl (w.nb_owned hb fl hfl)
+    cases howned with
+    | inr h1 => exact h1
+    | inl h1 =>
+      by_cases hd : fl.st = .done
+      · exact hd
+      · obtain ⟨f, hf⟩ := List.mem_iff_getElem?.mp hfl
+        obtain ⟨i, hi⟩ := Option.isSome_iff_exists.mp h1
+        have hb := w.owner f fl hf hd i hi
+        have := hall _ (mem_of_getElem? hb)
+        simp at this
+  refine ⟨hall, w.cur4 (by omega), ?_, ?_, hdone, ?_⟩
+  · cases hb : s.cfg.batching with
+    | true => exact (w.ret hp hb).1
+    | false => exact w.nb_hand hb
+  · cases hb : s.cfg.batching with
+    | true => exact (w.ret hp hb).2.1
+    | false => exact w.nb_timer hb
+  · intro f
+    cases hf : s.flights[f]? with
+    | none => simp [fire, hf]
+    | some fl => simp [fire, hf, hdone fl (mem_of_getElem? hf)]
+
+/-- "returned" is final: no step leaves phase 5 -/
+theorem C03_returned_stable {s s' : State} {l : Label} (hf : fire s l = some s') (hp : s.phase = 5) : s'.phase = 5 := by
+  have hs := fire_step hf
+  cases hs <;> first | exact hp | (simp_all) | omega
+
+/-- **Memory queue, drained.** When `Shutdown` has returned, every item whose enqueue completed before shutdown was requested
+(wherever it was: in the queue, in a consumer's hands, in the partially filled current batch, waiting for a worker, in a retry
+back-off) lies in a flight that has ended after at least one call of the export function — exactly one call when no call of
+that flight failed. -/
+theorem C03_memory_drained {s : State} (h : Reachable s) (hp : s.phase = 5) (hm : s.cfg.persistent = false) (hn : s.cons ≠ [])
+    (x : Item) (hx : x ∈ s.early) :
+    ∃ fl ∈ s.flights, x ∈ fl.batch ∧ fl.st = .done ∧ 1 ≤ fl.attempts ∧ (fl.failures = 0 → fl.attempts = 1) := by
+  have inv := inv_reachable h
+  obtain ⟨hall, hcur, hhand, htimer, hdone, _⟩ := C03_quiet h hp
+  have hex : ∃ c ∈ s.cons, c = .exited := by
+    cases hc : s.cons with
+    | nil => exact absurd hc hn
+    | cons c cs => exact ⟨c, by simp, hall c (by simp [hc])⟩
+  have hq := all_late_queueEarly (inv.late hm hex).2
+  have hcount := inv.early x
+  have hpos : 0 < s.early.count x := List.count_pos_iff.mpr hx
+  have hmem : x ∈ flightItems s.flights := by
+    have : 0 < (placesEarly s).count x := by omega
+    have := List.count_pos_iff.mp this
+    simpa [placesEarly, hq, all_exited_items hall, hcur, hhand, htimer, optItems, TSt.items] using this
+  simp only [flightItems, List.mem_flatMap] at hmem
+  obtain ⟨fl, hfl, hxb⟩ := hmem
+  have hok := inv.flights fl hfl
+  have hd := hdone fl hfl
+  simp only [FlightOK, hd] at hok
+  exact ⟨fl, hfl, hxb, hd, hok.1, by omega⟩
+
+/-- **Memory queue, exactly once.** If moreover the item was enqueued once, it lies in exactly one flight (once): the number of
+export calls that contained it is that flight's `attempts`, which is 1 when none of its calls failed (`C03_memory_drained`). -/
+theorem C03_memory_no_duplication {s : State} (h : Reachable s) (hp : s.phase = 5) (hm : s.cfg.persistent = false) (hn : s.cons ≠ [])
+    (x : Item) (hx : x ∈ s.early) (h1 : s.accepted.count x = 1) : (flightItems s.flights).count x = 1 := by
+  have inv := inv_reachable h
+  obtain ⟨fl, hfl, hxb, _⟩ := C03_memory_drained h hp hm hn x hx
+  have hge : 0 < (flightItems s.flights).count x :=
+    List.count_pos_iff.mpr (by simp only [flightItems, List.mem_flatMap]; exact ⟨fl, hfl, hxb⟩)
+  have hc := inv.conserved x
+  simp only [places, List.count_append] at hc
+  omega
+
+/-- **Persistent queue.** At every moment — in particular when `Shutdown` has returned — every accepted item is still in storage or
+lies in a flight that has ended (after at least one call of the export function) without a shutdown error. -/
+theorem C03_persistent_kept {s : State} (h : Reachable s) (hpq : s.cfg.persistent = true) (x : Item) (hx : x ∈ s.early) :
+    x ∈ s.stored ∨ ∃ fl ∈ s.flights, x ∈ fl.batch ∧ fl.st = .done ∧ fl.kept = false ∧ 1 ≤ fl.attempts := by
+  have inv := inv_reachable h
+  cases inv.kept hpq x (inv.sub x hx) with
+  | inl h1 => exact .inl h1
+  | inr h1 =>
+    obtain ⟨fl, hfl, hd, hk, hb⟩ := h1
+    have hok := inv.flights fl hfl
+    simp only [FlightOK, hd] at hok
+    exact .inr ⟨fl, hfl, hb, hd, hk, hok.1⟩
+
+/-- the persistent queue serves nothing after it was stopped: what is in the queue then stays (stored) for the next start -/
+theorem C03_persistent_stops_dispatch (s : State) (i : Nat) (hpq : s.cfg.persistent = true) (hp : 2 ≤ s.phase) : fire s (.read i) = none := by
+  simp only [fire]
+  split
+  · simp [hpq, hp]
+  · rfl
+
+
+/-- NOT PROVED (named gap): termination of `Shutdown`.  Full statement: from every reachable state in which shutdown has been
+requested, some schedule reaches `phase = 5` (no state is stuck), provided the worker pool has at least one slot.  It needs a
+ranking argument over the drain (two more invariants: worker accounting `workers + live unowned flights = pool size`, and
+`busy f → flight f is live`).  On the implementation it is monitored: the harness reports `C03/shutdown/never-returns` when
+`Shutdown` has not returned after 100 virtual hours. -/
+def C03_shutdown_terminates_full : Prop :=
+  ∀ s : State, Reachable s → 1 ≤ s.phase →
+    (s.cfg.batching = true → 0 < s.workers + (s.flights.filter (fun fl => fl.owner.isNone && fl.st != .done)).length) →
+    ∃ ls s', runFrom s ls = some s' ∧ s'.phase = 5
+
+/-! ## non-vacuity: concrete schedules -/
+
+/-- memory queue, default batcher, retry on: two requests, the second is split, one batch stays as the partial current batch;
+shutdown is requested while one flight is in a retry back-off and the partial batch is waiting; the drain ends in phase 5 -/
+def demoSchedule : List Label :=
+  [.offer [1, 2], .offer [3, 4, 5], .read 0, .consume 0 [] (some [1, 2]), .read 0, .consume 0 [[1, 2, 3]] (some [4, 5]),
+   .spawn 0, .expStart 0, .expEnd 0 .trans .again,
+   .shutRetry, .shutQueue, .offer [9], .giveUp 0 true, .read 0, .consume 0 [] (some [4, 5, 9]), .exit 0, .join, .shutBatcher, .shutSpawn,
+   .expStart 1, .expEnd 1 .ok .drop, .timerExit, .shutWait]
+
+def demoFinal : Option State := runFrom (init ⟨false, true, true⟩ 1 1 true) demoSchedule
+
+example : (demoFinal.map (·.phase)) = some 5 := by decide
+example : (demoFinal.map (·.early)) = some [1, 2, 3, 4, 5] := by decide
+example : (demoFinal.map (fun s => s.flights.map (fun fl => (fl.batch, fl.attempts, fl.failures)))) =
+    some [([1, 2, 3], 1, 1), ([4, 5, 9], 1, 0)] := by decide
+
+/-- persistent queue, disabled batcher, two consumers: shutdown interrupts a retry (kept in storage), one request is never read -/
+def demoPersistent : List Label :=
+  [.offer [1], .offer [2], .offer [3], .read 0, .sendSync 0, .expStart 0, .expEnd 0 .trans .again, .read 1, .sendSync 1, .expStart 1,
+   .shutRetry, .giveUp 0 true, .shutQueue, .expEnd 1 .ok .drop, .exit 0, .exit 1, .join, .shutBatcher, .shutWait]
+
+def demoPFinal : Option State := runFrom (init ⟨true, false, true⟩ 2 0 false) demoPersistent
+
+example : (demoPFinal.map (fun s => (s.phase, s.stored, s.queue.map (·.1)))) = some (5, [1, 3], [[3]]) := by decide
+
+/-! ## trace-level reading and soundness of the monitor -/
+
+/-- the property's observable clauses on a recorded trace (memory queue) -/
+def TraceOK (t : List Ev) : Prop :=
+  (∃ e ∈ t, isShutRet e = true) ∧
+  (∀ x ∈ earlyItems t, 1 ≤ attemptsOf (evsBefore isShutRet t) x) ∧
+  (∀ x ∈ earlyItems t, failedFor (evsBefore isShutRet t) x = false → (earlyItems t).count x ≤ 1 →
+      attemptsOf (evsBefore isShutRet t) x ≤ 1) ∧
+  (∀ p ∈ startsOf (evsBefore isShutRet t), p.1 ∈ (endsOf (evsBefore isShutRet t)).map (·.1)) ∧
+  startsOf (evsAfter isShutRet t) = []
+
+/-- persistent queue: "attempted before the return, or delivered again by the next start" -/
+def TraceOKPersistent (t : List Ev) (recovered : List Item) : Prop :=
+  (∃ e ∈ t, isShutRet e = true) ∧
+  (∀ x ∈ earlyItems t, 1 ≤ attemptsOf (evsBefore isShutRet t) x ∨ x ∈ recovered) ∧
+  (∀ p ∈ startsOf (evsBefore isShutRet t), p.1 ∈ (endsOf (evsBefore isShutRet t)).map (·.1)) ∧
+  startsOf (evsAfter isShutRet t) = []
+
+theorem filter_isEmpty {α : Type} {p : α → Bool} {l : List α} (h : (l.filter p).isEmpty = true) : ∀ x ∈ l, p x = false := by
+  intro x hx
+  rw [List.isEmpty_iff] at h
+  have := List.filter_eq_nil_iff.mp h x hx
+  simpa using this
+
+theorem C03_check_memory_sound (t : List Ev) (h : checkMemory t = true) : TraceOK t := by
+  simp only [checkMemory, verdict, Bool.and_eq_true] at h
+  obtain ⟨⟨⟨⟨h1, h2⟩, h3⟩, h4⟩, h5⟩ := h
+  refine ⟨by simpa [List.any_eq_true] using h1, ?_, ?_, ?_, ?_⟩
+  · intro x hx
+    have := filter_isEmpty h2 x hx
+    simp at this; omega
+  · intro x hx hf hc
+    have := filter_isEmpty h3 x hx
+    simp [hf, hc] at this; exact this
+  · intro p hp
+    have := filter_isEmpty h4 p.1 (List.mem_map.mpr ⟨p, hp, rfl⟩)
+    simp at this ⊢
+    exact Decidable.or_iff_not_imp_left.mpr this
+  · have := List.isEmpty_iff.mp h5
+    simpa using this
+
+theorem C03_check_persistent_sound (t : List Ev) (r : List Item) (h : checkPersistent t r = true) : TraceOKPersistent t r := by
+  simp only [checkPersistent, verdict, lostPersistent, Bool.and_eq_true] at h
+  obtain ⟨⟨⟨h1, h2⟩, h4⟩, h5⟩ := h
+  refine ⟨by simpa [List.any_eq_true] using h1, ?_, ?_, ?_⟩
+  · intro x hx
+    have := filter_isEmpty h2 x hx
+    simp at this
+    by_cases ha : attemptsOf (evsBefore isShutRet t) x = 0
+    · exact .inr (this ha)
+    · exact .inl (by omega)
+  · intro p hp
+    have := filter_isEmpty h4 p.1 (List.mem_map.mpr ⟨p, hp, rfl⟩)
+    simp at this ⊢
+    exact Decidable.or_iff_not_imp_left.mpr this
+  · have := List.isEmpty_iff.mp h5
+    simpa using this
+
+/-- the monitor is not vacuous: it accepts a good trace and rejects an undrained one, a late call, an open call -/
+example : checkMemory [.acc [1, 2], .acc [3], .shutReq, .es 0 [1, 2, 3], .ee 0 false, .shutRet] = true := by decide
+example : checkMemory [.acc [1, 2], .acc [3], .shutReq, .es 0 [1, 2], .ee 0 false, .shutRet] = false := by decide
+example : checkMemory [.acc [1], .shutReq, .es 0 [1], .ee 0 false, .shutRet, .es 1 [7]] = false := by decide
+example : checkMemory [.acc [1], .shutReq, .es 0 [1], .shutRet, .ee 0 false] = false := by decide
+example : checkMemory [.acc [1], .es 0 [1], .ee 0 false, .shutReq, .es 1 [1], .ee 1 false, .shutRet] = false := by decide
+example : checkPersistent [.acc [1], .acc [2], .shutReq, .es 0 [1], .ee 0 true, .shutRet] [2] = true := by decide
+example : checkPersistent [.acc [1], .acc [2], .shutReq, .es 0 [1], .ee 0 true, .shutRet] [] = false := by decide
+
 end OtelVerif.C03
